@@ -375,6 +375,7 @@ fn exec1(env: &Env, s: &Stmt) -> Env {
         Stmt::CurScope(x) => bind(env, *x, Bind::Handle(use_current_scope())),
         Stmt::Set(x, e) => {
             let v = eval(env, e);
+            log(format!("write {x} {v}"));
             match lookup(env, *x) {
                 Bind::Sig(s) => s.set(v),
                 _ => panic!("ILL-FORMED: set of a non-signal"),
